@@ -1,8 +1,160 @@
-(** C18 — every data type value prints to SQL that parses back to itself.  (work in progress) *)
-Require Import SqlV.Base SqlV.DataTypeRT SqlVGen.DataTypeTables.
+(** C18 — every data type value prints to SQL that parses back to itself.
+    Statements only.  [SqlVGen.DataTypeTables] (family tables of the regular Display arms and of
+    the regular arms of the keyword match in [parse_data_type_helper]) is regenerated on every run
+    by harness/dtx; the theorems are [exact] applications of theories/DataTypeRTProofs.v, their
+    side conditions decided by evaluation in the kernel.
 
+    Level: tokens (the tokenizer is C06/C09's subject).  [glue] is the one place where printing
+    is not a homomorphism on tokens: adjacent [>] lex as [>>].
+
+    What is proved: the full statement for the table-driven families (71 of the 85 constructors)
+    and, over them, nesting to ANY depth of ARRAY<..>, Nullable(..), LowCardinality(..) with the
+    [>>] trailing-bracket bookkeeping ([C18_round_trip_partial]).  The remaining hand-modelled
+    constructors (square-bracket and parenthesised arrays, STRUCT, UNION, Map, Tuple, Nested,
+    ENUM/SET, DateTime64, FixedString, custom names) are executable in the model and tied to the
+    implementation by correspondence on every run, but their round trip is not proved: the full
+    statement is kept visible as [C18_round_trip_full_statement]; it is FALSE without the
+    known-class exclusions, as the [_refuted] lemmas show on the model itself. *)
+Require Import SqlV.Base SqlV.DataTypeRT SqlV.DataTypeRTProofs SqlVGen.DataTypeTables.
+
+(** ** Generated side conditions *)
 Lemma c18_no_obligations : dt_obligations = [].
 Proof. vm_compute. reflexivity. Qed.
 
+(** every regular Display arm is found again by the parser under its own spelling, with the same
+    constructor and family; family keywords are not continuation keywords; hand-modelled arms are
+    where the model expects them *)
 Lemma c18_family_consistent : family_consistent dt_tables = true.
+Proof. vm_compute. reflexivity. Qed.
+
+Definition all_dialects : list (list N) :=
+  [s2l "generic"; s2l "ansi"; s2l "bigquery"; s2l "clickhouse"; s2l "databricks"; s2l "duckdb"; s2l "hive";
+   s2l "mssql"; s2l "mysql"; s2l "postgresql"; s2l "redshift"; s2l "snowflake"; s2l "sqlite"].
+
+(** dialect gates of the wrappers of the nesting theorem, as the generated table has them *)
+Lemma c18_gates :
+  forallb (fun d => irr_at dt_tables d (s2l "ARRAY") (s2l "ARRAY#0")) all_dialects = true
+  /\ filter (fun d => irr_at dt_tables d (s2l "NULLABLE") (s2l "NULLABLE#0")) all_dialects = [s2l "generic"; s2l "clickhouse"]
+  /\ filter (fun d => irr_at dt_tables d (s2l "LOWCARDINALITY") (s2l "LOWCARDINALITY#0")) all_dialects = [s2l "generic"; s2l "clickhouse"].
+Proof. vm_compute. repeat split; reflexivity. Qed.
+
+(** ** The property *)
+
+(** Table-driven families: every constructor with every combination of its parameters, under
+    every dialect, followed by anything the type grammar cannot absorb. *)
+Theorem C18_leaf_round_trip :
+  forall (d : list N) (t : dt) (rest : list tok) (fuel : nat),
+    leaf_wf dt_tables t = true -> follow_ok dt_tables rest = true ->
+    parse_helper dt_tables d (S fuel) (print_dt dt_tables t ++ rest) = POk t false rest.
+Proof. exact (fun d => leaf_parse dt_tables d c18_family_consistent). Qed.
+Print Assumptions C18_leaf_round_trip.
+
+(** Nesting unbounded: the invariant of the [>>] bookkeeping.  [m] closing brackets of enclosing
+    ARRAY<..> are pending; the child reports whether it consumed one of them as the second half of
+    a [>>]. *)
+Theorem C18_angle_bookkeeping :
+  forall (d : list N) (t : dt), PF dt_tables d t ->
+  forall (fuel m : nat) (rest : list tok), (depth t < fuel)%nat -> follow_top dt_tables rest = true ->
+    parse_helper dt_tables d fuel (glue (print_dt dt_tables t ++ repeat TGt m ++ rest)) =
+      POk t (flag t m) (close (m - (if flag t m then 1 else 0)) ++ glue rest).
+Proof. exact (fun d => nest_parse dt_tables d c18_family_consistent). Qed.
+Print Assumptions C18_angle_bookkeeping.
+
+Theorem C18_round_trip_partial :
+  forall (d : list N) (t : dt) (rest : list tok),
+    PF dt_tables d t -> follow_top dt_tables rest = true ->
+    parse_helper dt_tables d (S (length (glue (print_dt dt_tables t ++ rest)))) (glue (print_dt dt_tables t ++ rest))
+    = POk t false (glue rest).
+Proof. exact (fun d => round_trip_follow dt_tables d c18_family_consistent). Qed.
+Print Assumptions C18_round_trip_partial.
+
+(** standing alone: [Parser::parse_data_type] consumes the whole printed text *)
+Theorem C18_stand_alone_partial :
+  forall (d : list N) (t : dt), PF dt_tables d t ->
+    parse_dt dt_tables d (glue (print_dt dt_tables t)) = POk t false [].
+Proof. exact (fun d => round_trip_standalone dt_tables d c18_family_consistent). Qed.
+Print Assumptions C18_stand_alone_partial.
+
+(** inside a cast: [CAST(x AS <type>)] — the type is followed by [)] *)
+Theorem C18_in_cast_partial :
+  forall (d : list N) (t : dt) (r : list tok), PF dt_tables d t ->
+    parse_helper dt_tables d (S (length (glue (print_dt dt_tables t ++ TRParen :: r)))) (glue (print_dt dt_tables t ++ TRParen :: r))
+    = POk t false (TRParen :: glue r).
+Proof. exact (fun d t r H => C18_round_trip_partial d t (TRParen :: r) H eq_refl). Qed.
+Print Assumptions C18_in_cast_partial.
+
+(** in a column definition: [CREATE TABLE t (c <type>, ..)] / [.. <type>)] — the type is followed by [,]
+    (or [)], above; or a constraint keyword, which is in the Follow set as long as it is not one of
+    [absorb_kws]) *)
+Theorem C18_in_column_def_partial :
+  forall (d : list N) (t : dt) (r : list tok), PF dt_tables d t ->
+    parse_helper dt_tables d (S (length (glue (print_dt dt_tables t ++ TComma :: r)))) (glue (print_dt dt_tables t ++ TComma :: r))
+    = POk t false (TComma :: glue r).
+Proof. exact (fun d t r H => C18_round_trip_partial d t (TComma :: r) H eq_refl). Qed.
+Print Assumptions C18_in_column_def_partial.
+
+(** the constraint keywords that may follow a column type are in the Follow set *)
+Example C18_follow_constraints :
+  forallb (fun w => follow_top dt_tables [TWord w])
+    [s2l "NOT"; s2l "NULL"; s2l "DEFAULT"; s2l "PRIMARY"; s2l "UNIQUE"; s2l "REFERENCES"; s2l "CHECK";
+     s2l "COLLATE"; s2l "CONSTRAINT"; s2l "GENERATED"; s2l "AS"; s2l "COMMENT"; s2l "AUTO_INCREMENT"; s2l "FORMAT"] = true.
+Proof. vm_compute. reflexivity. Qed.
+
+(** ** The full statement, and why it needs the known-class exclusions *)
+
+(** "In the form the parser itself produces" is expressible on the model: the value is what the
+    parser returns for its own printed tokens *before* gluing (i.e. for the text with a blank
+    between adjacent [>]).  The full statement then reads: *)
+Definition C18_round_trip_full_statement : Prop :=
+  forall (d : list N) (t : dt),
+    parse_dt dt_tables d (print_dt dt_tables t) = POk t false [] ->
+    known_angle_class d t = false ->
+    parse_dt dt_tables d (glue (print_dt dt_tables t)) = POk t false [].
+(** Not proved beyond [C18_stand_alone_partial]; every run evaluates it (through the
+    implementation and through the model) on the enumerated values. *)
+
+Definition dINT : dt := DOptLen (s2l "Int") None.
+
+(** KNOWN_FINDINGS angle-close:even-run-then-bracket — [ARRAY<ARRAY<INT>>[]]: a value the
+    parser produces (for [ARRAY< ARRAY< INT > >[]]) whose printed text parses to another value. *)
+Lemma C18_bracket_after_shr_refuted :
+  let t := DArraySquare (DArrayAngle (DArrayAngle dINT)) None in
+  parse_dt dt_tables (s2l "generic") (print_dt dt_tables t) = POk t false []
+  /\ parse_dt dt_tables (s2l "generic") (glue (print_dt dt_tables t))
+     = POk (DArrayAngle (DArraySquare (DArrayAngle dINT) None)) false []
+  /\ known_angle_class (s2l "generic") t = true.
+Proof. vm_compute. repeat split; reflexivity. Qed.
+
+(** KNOWN_FINDINGS angle-close:struct-even-run-then-comma — [STRUCT<a STRUCT<ARRAY<INT>>, b INT>] *)
+Lemma C18_struct_comma_after_shr_refuted :
+  let a := Id None (s2l "a") in let b := Id None (s2l "b") in
+  let t := DStruct [(Some a, DStruct [(None, DArrayAngle dINT)] BAngle); (Some b, dINT)] BAngle in
+  parse_dt dt_tables (s2l "bigquery") (print_dt dt_tables t) = POk t false []
+  /\ parse_dt dt_tables (s2l "bigquery") (glue (print_dt dt_tables t)) = PErr
+  /\ known_angle_class (s2l "bigquery") t = true.
+Proof. vm_compute. repeat split; reflexivity. Qed.
+
+(** KNOWN_FINDINGS custom-modifier:not-a-token — the parser stores a quoted modifier without its
+    quotes; the value is outside what the printer can spell. *)
+Lemma C18_custom_string_modifier_refuted :
+  parse_dt dt_tables (s2l "generic") [W "FOO"; TLParen; TStr (s2l "a b"); TRParen]
+  = POk (DCustom [Id None (s2l "FOO")] [TStr (s2l "a b")]) false [].
+Proof. vm_compute. reflexivity. Qed.
+
+(** ** Non-vacuity *)
+Example C18_concrete_nested :
+  let t := DArrayAngle (DArrayAngle (DArrayAngle (DNullable (DTime (s2l "Timestamp") (Some 6) TzWith)))) in
+  PF dt_tables (s2l "generic") t
+  /\ glue (print_dt dt_tables t) =
+       [W "ARRAY"; TLt; W "ARRAY"; TLt; W "ARRAY"; TLt; W "Nullable"; TLParen; W "TIMESTAMP"; TLParen; TNum 6; TRParen;
+        W "WITH"; W "TIME"; W "ZONE"; TRParen; TShr; TGt].
+Proof.
+  split; [|vm_compute; reflexivity].
+  repeat (first [ apply PF_angle; [vm_compute; reflexivity | vm_compute; reflexivity | vm_compute; reflexivity | ]
+                | apply PF_nullable; [vm_compute; reflexivity | ] ]).
+  apply PF_leaf. vm_compute. reflexivity.
+Qed.
+
+Example C18_concrete_leaves :
+  (1 <=? N.of_nat (length print_rows)) && forallb (fun r => negb (str_eqb (p_ctor r) [])) print_rows = true.
 Proof. vm_compute. reflexivity. Qed.
